@@ -7,4 +7,5 @@ INVARIANT Refines
 INVARIANT EndOnce
 INVARIANT CountsExact
 INVARIANT LocatorsValid
+INVARIANT Emit
 CHECK_DEADLOCK FALSE
